@@ -23,7 +23,7 @@ def atom_id(a):
     parts.append(f"by{a.get('bytepos')}")
     parts.append("hl" if a.get("hl") in (None, True) else "lh")
     if a.get("mask") is not None:
-        parts.append(f"m{a['mask']:x}" + ("c" if a.get("condensed") else ""))
+        parts.append(f"m{a['mask']:x}" + ("-cond" if a.get("condensed") else ""))
     if a.get("tail") is False:
         parts.append("notail")
     for k in ("min", "max", "term", "vlen", "sidx"):
@@ -150,6 +150,9 @@ def ref_pdu(a, v):
                 raise odxref.Reject("length does not fit the length field")
             n = p.put_field(pos, bitpos, lbl, len(raw), hl)
             n += p.put_bytes(pos + n, raw)
+    elif dct == "std" and a.get("mask") is not None and not a.get("condensed") and dtp in INT_TYPES:
+        # plain mask: the masked bits are claimed, everything else in the field stays zero
+        n = p.put_field(pos, bitpos, a["bl"], v, hl, mask_bits=a["mask"])
     else:
         return None
     end = pos + n
@@ -170,6 +173,12 @@ def run_atom(sx, cfg, env):
     indom = None
     if dtp in INT_TYPES and a.get("dct", "std") == "std" and a.get("mask") is None:
         indom = odxref.int_domain(dtp, a.get("enc"), a["bl"], v)
+    if a.get("mask") is not None:
+        # BIT-MASK: bits outside the mask are not transmitted by design (the repository's own
+        # tests rely on it), so the properties speak about values inside the mask
+        sx.assume(s_and(v >= 0, (v & ~a["mask"]) == 0))
+        if dtp == "A_INT32":
+            sx.assume(v < (1 << (a["bl"] - 1)))
     if prop == "C03":
         return run_atom_c03(sx, cfg, env, v, indom)
     if prop in ("C01", "C02", "C08") and indom is not None:
@@ -459,6 +468,14 @@ def atoms(tier, seed):
                     for hl in ((True, False) if dtp == "A_UNICODE2STRING" else (True,)):
                         out.append(dict(dt=dtp, enc=enc, bl=bl, bitpos=0, hl=hl, bytepos=None,
                                         sidx=sidx))
+    # BIT-MASK (plain and condensed) on integers
+    for dtp in ("A_UINT32", "A_INT32"):
+        for bl, mask in ((8, 0x0F), (8, 0xA5), (16, 0xF00F), (16, 0x3FC), (12, 0x555), (24, 0xFF00FF)):
+            for condensed in (None, True):
+                for bitpos in (0, 2):
+                    for hl in (True, False):
+                        out.append(dict(dt=dtp, enc=None, bl=bl, bitpos=bitpos, hl=hl, bytepos=None,
+                                        mask=mask, condensed=condensed))
     # MIN-MAX-LENGTH-TYPE and LEADING-LENGTH-INFO-TYPE
     for dtp, encs in (("A_BYTEFIELD", [None]), ("A_ASCIISTRING", [None]), ("A_UTF8STRING", [None]),
                       ("A_UNICODE2STRING", [None])):
